@@ -45,12 +45,11 @@ impl<B: Buffer> Editor<B> {
 //@ }
 //@ /// representation invariant, memory part: the valid prefix is inside the buffer and is well-formed UTF-8
 //@ pub closed spec fn wf_mem(&self) -> bool {
-//@     self.valid <= self.buffer.bytes().len() && self.buffer.bytes().len() <= isize::MAX && valid_utf8(self.line_bytes())
+//@     self.valid <= self.buffer.bytes().len() && valid_utf8(self.line_bytes())
 //@ }
 //@ /// representation invariant: additionally the cursor is inside the line
 //@ pub open spec fn wf(&self) -> bool { self.wf_mem() && self.cur() <= self.line().len() }
     pub fn new(buffer: B) -> Self {
-//@ requires buffer.bytes().len() <= isize::MAX,
 //@ ensures r.wf(), r.line() == Seq::<char>::empty(), r.cur() == 0, r.cap() == buffer.bytes().len(),   // [C05]
 //@ ---
 //@ proof { assert(buffer.bytes().subrange(0, 0) =~= Seq::<u8>::empty()); }
